@@ -289,16 +289,27 @@ func (w *wgen) baseJSON(forceObj bool) interface{} {
 			o[k] = v
 		}
 	}
+	// bounds: far apart, adjacent, equal (one admissible value, a fixed length), and only one of the two
+	pair := func(lo, hi string, base, step float64) {
+		switch w.g.Intn(6) {
+		case 0: // equal bounds
+			v := base + step*float64(w.g.Intn(4))
+			o[lo], o[hi] = v, v
+		case 1: // adjacent
+			v := base + step*float64(w.g.Intn(4))
+			o[lo], o[hi] = v, v+step
+		default:
+			opt(lo, base+step*float64(w.g.Intn(5)))
+			opt(hi, base+step*float64(10+w.g.Intn(5)))
+		}
+	}
 	switch t {
 	case "integer":
-		opt("minInteger", float64(w.g.Intn(5)-2))
-		opt("maxInteger", float64(10+w.g.Intn(5)))
+		pair("minInteger", "maxInteger", -2, 1)
 	case "real":
-		opt("minReal", float64(w.g.Intn(5))-1.5)
-		opt("maxReal", 10.25+float64(w.g.Intn(5)))
+		pair("minReal", "maxReal", -1.5, 0.25)
 	case "string":
-		opt("minLength", float64(w.g.Intn(3)))
-		opt("maxLength", float64(5+w.g.Intn(5)))
+		pair("minLength", "maxLength", 0, 1)
 	case "uuid":
 		opt("refTable", fmt.Sprintf("T%d", w.g.Intn(3)))
 		opt("refType", []string{"strong", "weak"}[w.g.Intn(2)])
